@@ -14,6 +14,8 @@
     x                         Stop: shouldStop set, channel closed (logged inside b.mu)
     w <0|1>                   harness observation after waiting for the idle flush: 1 = everything added is committed
     panic:<kind>              a goroutine of the case panicked
+    k                         tick of the harness's own reference clock (a goroutine sleeping 100 ms per tick); used to
+                              read the heartbeat period off the trace: no state change in the model
 
   `o`/`d` are logged outside any lock of the batcher. They only touch the flags of their own
   batch in the model, so `step?` accepts them wherever the log happens to put them after the
@@ -31,6 +33,7 @@ namespace FileD.Batcher
 inductive Tk
   | a (e : Ev) | h | s (k st : Nat) | q (k : Nat) | o (k : Nat) (ids : List Nat)
   | d (k : Nat) (keep : Bool) | cb (k : Nat) (ids : List Nat) | x | w (ok : Bool) | panic (kind : String)
+  | clk   -- a tick of the harness's own 100 ms reference clock (not an event of the batcher)
 deriving Repr
 
 def Kind.ofNat? : Nat â†’ Option Kind
@@ -55,6 +58,7 @@ def parseTk : List String â†’ Option (Tk Ã— List String)
     let (ids, r') â† listOf nat? r
     pure (.cb (â† nat? k) ids, r')
   | "x" :: r => some (.x, r)
+  | "k" :: r => some (.clk, r)
   | "w" :: b :: r => do pure (.w (â† bool? b), r)
   | t :: r => if t.startsWith "panic:" then some (.panic ((t.drop 6).toString), r) else none
   | [] => none
@@ -78,6 +82,7 @@ def Tk.render : Tk â†’ String
   | .d k kp => unwords ["d", toString k, ofBool kp]
   | .cb k ids => unwords ["cb", toString k, encList toString ids]
   | .x => "x"
+  | .clk => "k"
   | .w ok => unwords ["w", ofBool ok]
   | .panic kind => "panic:" ++ kind
 
@@ -139,6 +144,7 @@ def replayTk (c : Cfg) (r : Replay) (t : Tk) (rest : List Tk) : Option (Replay Ã
     if r.st.stopped then none else
     (step? c r.st .stop).map fun s' => ({ r with st := s' }, .x)
   | .w _ => some (r, .w r.st.drained)
+  | .clk => some (r, .clk)
   | .panic kind => if r.st.panicked && kind == "closed-channel" then some (r, .panic kind) else none
 
 /-- replay a whole trace; result = the tokens the model prints, or the index of the first
